@@ -565,7 +565,8 @@ impl<'a> ParserState<'a> {
             let token = self.expect_token(context, A2lTokenType::String)?;
             let mut text = self.get_token_text(token);
 
-            if text.starts_with('\"') {
+            // (the raw text of a nested A2ML block is also a String token, but it is not necessarily quoted)
+            if text.len() >= 2 && text.starts_with('\"') && text.ends_with('\"') {
                 text = &text[1..text.len() - 1];
             }
 
